@@ -96,6 +96,11 @@ def Req.isJson : Req → Prop
   | .sequence _ values _ _ => ∀ v, v ∈ values → v.isJson
   | _ => True
 
+/-- A request that leaves the port's definition in force (anything but a redefinition). -/
+def Req.keepsDef : Req → Prop
+  | .redefine _ => False
+  | _ => True
+
 end QtVerif.ValueDomain
 
 namespace QtVerif.ValueDomain
